@@ -102,6 +102,12 @@ JudgeOp1(e, Fr, Gr) ==
     [] e.op = "Equals" ->
          LET other == Fr[e.a.other + 1] IN
          IF R.err \/ other.err THEN PlainU("unspec", TRUE)     \* Equals does not consult Err
+         ELSE IF "must" \in DOMAIN e /\ e.must = 1
+              \* C09: a frame rebuilt from the observed values yields Equal results under every operation whose
+              \* result is a function of the observable values (Filter, Sort, Select, Apply): the scenario applied
+              \* one such operation to both and the results must be Equal - also where the specification leaves
+              \* the order of ties to the implementation
+              THEN Plain(e.res = 1)
          ELSE Plain((e.res = 1) = EqualsSem(R, other))
     [] e.op = "SliceObs" -> Plain(TRUE)
     [] e.op = "Scribble" -> Plain(TRUE)      \* overwriting what View.Slice() returned; persistence is judged by Persist
